@@ -86,6 +86,13 @@ def _case(rng, fam, gseed, cfgd):
         cfgd["scaling"] = "none"
         case["fmt"] = ["dia", "diaj", "dia", "bsr", "lil", "dok", "coo", "csr", "csc", "diaj"][gseed[-1] % 10]
         case["zero_jac_eq"] = True
+    if fam == "DEG" and "gopts" not in case and rng.random() < 0.35:
+        # variables that enter linearly (structurally empty trailing Hessian columns), no constraints, no scaling: the
+        # Hessian reaches the step solvers in the format the callback chose
+        case["gopts"] = {"variant": 7}
+        cfgd["scaling"] = "none"
+        case["fmt"] = ["dia", "diaj", "dia", "bsr", "lil", "dok", "coo", "csr", "csc", "dia"][gseed[-1] % 10]
+        case["linear_vars"] = True
     if fam in ("QP", "NLP") and "gopts" not in case and rng.random() < 0.1:
         case["gopts"] = {"row_force": ["free"]}   # a row without any bound
     return case
@@ -170,6 +177,8 @@ def run_case(case):
         res["ctr"]["runs_with_derivative_check"] = 1
         res["ctr"]["runs_with_derivative_check_debug_log"] = int(case.get("log") == "DEBUG")
         res["ctr"]["runs_with_derivative_check_no_constraints"] = int(p.spec.m == 0)
+    if case.get("linear_vars"):
+        res["ctr"]["linear_variables_fmt_" + p.fmt] = 1
     if case.get("zero_jac_eq"):
         res["ctr"]["zero_jacobian_equality_fmt_" + p.fmt] = 1
     if case["cfg"].get("report_rcond"):
@@ -193,7 +202,7 @@ def finalize(agg, tier):
                 "distinct by spec seed",
         "floors": {"outcome_status:Optimal": 200, "log_DEBUG": 100, "report_rcond_on": 100,
                    "outcome_raise:lamb_max": 5, "newton_Globalized": 50, "linear_MINRES": 10,
-                   "penalty_LagrangianFilter": 50, "family_NCVX": 50, "fmt_dia": 20, "fmt_bsr": 20, "zero_jacobian_equality_fmt_dia": 3, "runs_with_derivative_check": 60,
+                   "penalty_LagrangianFilter": 50, "family_NCVX": 50, "fmt_dia": 20, "fmt_bsr": 20, "zero_jacobian_equality_fmt_dia": 3, "linear_variables_fmt_dia": 5, "runs_with_derivative_check": 60,
                    "runs_with_derivative_check_debug_log": 10, "runs_with_derivative_check_no_constraints": 10},
         "assumptions": ["exceptions raised while constructing the Solver (scaling computation) are counted, not judged: "
                         "the property speaks about solve()",
